@@ -107,4 +107,31 @@ CHECKS = {'C01': {'level': 'exploration',
          'tests': [{'run': '^TestC12$',
                     'checks': {'quick': 400, 'thorough': 4000},
                     'shards': {'quick': 1, 'thorough': 16},
+                    'timeout': {'quick': 900, 'thorough': 3400}}]},
+ 'C16': {'level': 'exploration',
+         'rule': 'model-based stateful histories over a string column whose values come from a 5-value alphabet with forced duplicates (incl. the '
+                 'empty string) and default / order-sensitive merge functions: inserts, overwrites (also to an existing value), merges, deletes, '
+                 'reinserts, prefills of 3..16390 rows, patterned bulk deletes, rollbacks; the sort index is created before or after the data and '
+                 'can be dropped and re-created; before Ascend a drawn filter (none, With/Without a bitmap index, WithString predicate, '
+                 'With(column)). Oracle: the offsets passed to the callback are exactly {selected rows holding a value}, each once; the values read '
+                 "at the callback equal the model's and are non-decreasing. non-trivial = >=2 visited rows share a value after some row was "
+                 'overwritten or deleted since the index was created; distinct = hash of the trace',
+         'assumptions': ['quiescent checks (no writer runs during Ascend)'],
+         'tests': [{'run': '^TestC16$',
+                    'checks': {'quick': 300, 'thorough': 3000},
+                    'shards': {'quick': 1, 'thorough': 16},
+                    'timeout': {'quick': 900, 'thorough': 3400}}]},
+ 'C19': {'level': 'exploration',
+         'rule': 'model-based stateful histories on numeric and string columns (all widths, additive / order-sensitive / same-length merge '
+                 'functions): transactions with puts, merges, several writes to one row, own-insert updates, deletes, rollbacks, multi-block '
+                 'prefills and bulk deletes; triggers (up to 3 live, several per column) are created and dropped mid-history. Oracle per transaction '
+                 'and trigger: the calls received == model events - for every committed store to the watched column (offset, value finally stored '
+                 'AFTER merge) with stores of one row in issue order, exactly one delete call per deleted row, nothing for rolled-back transactions, '
+                 'nothing after DropTrigger. non-trivial = a transaction with a merge followed by a later put on the same row, a row delete, or a '
+                 'rollback while a trigger existed; distinct = hash of the trace',
+         'assumptions': ['bool columns are not watched (a false store is encoded as the delete op-code by design)',
+                         'stores into a row that the same transaction also deletes are not judged (only its single delete call is)'],
+         'tests': [{'run': '^TestC19$',
+                    'checks': {'quick': 400, 'thorough': 4000},
+                    'shards': {'quick': 1, 'thorough': 16},
                     'timeout': {'quick': 900, 'thorough': 3400}}]}}
